@@ -653,7 +653,11 @@ func (st *tunnelClientStream) CloseSend() error {
 
 	select {
 	case <-st.doneSignal:
-		return st.loadDone()
+		if err := st.loadDone(); err != io.EOF {
+			return err
+		}
+		// RPC already completed successfully; nothing to half-close
+		return nil
 	default:
 		// don't block since we are holding writeMu
 	}
